@@ -22,7 +22,10 @@ SPEC = {'level': 'exploration',
             gen('vh_c24', 'up_clusterlin_postlinearize', 3000, 60000, rule='upstream fuzz target, supplementary'),
             gen('vh_c24', 'up_clusterlin_postlinearize_tree', 2000, 40000, rule='upstream fuzz target, supplementary'),
             gen('vh_c24', 'up_clusterlin_sfl', 2000, 40000, rule='upstream fuzz target, supplementary'),
-            gen('vh_c24', 'up_clusterlin_chunking', 3000, 60000, rule='upstream fuzz target, supplementary')]}
+            gen('vh_c24', 'up_clusterlin_chunking', 3000, 60000, rule='upstream fuzz target, supplementary'),
+        # coverage-guided libFuzzer campaign on the same target (thorough tier only; fz tree = g++ trace-pc + covshim)
+        fuzz('vh_c24', 'c24_linearize', 300, max_len=900),
+    ]}
 
 META = {'level_text': 'Generated clusters (all structural shapes, 1..64 transactions, fee/size families with ties, zeros, negatives and extremes) with generated input '
                'linearizations and cost budgets; every output of Linearize / PostLinearize is checked with independent code: permutation, topological on the '
